@@ -286,6 +286,12 @@ def run(ctx) -> RuleResult:
 def _alternatives(expr, step):
     """An element of a literal dict/tuple/list denotes one of its members (those not known to be None)."""
     base = expr
+    if is_S(base) and base.func.id[1:] in ("value", "elem", "key") and base.args:
+        # the container is known to be empty (falsy) on this path: it has no elements at all
+        want = U(strip_tags(base.args[0]))
+        for node, polarity in step.fact_items():
+            if polarity is False and U(strip_tags(node)) == want:
+                return []
     if is_S(base) and base.func.id[1:] in ("value", "elem") and base.args and isinstance(base.args[0], (ast.Dict, ast.Tuple, ast.List)):
         lit = base.args[0]
         members = list(lit.values) if isinstance(lit, ast.Dict) else [e for e in lit.elts if not isinstance(e, ast.Starred)]
@@ -297,6 +303,12 @@ def _alternatives(expr, step):
                 if not known_none:
                     out.append(member)
             return out
+    # a value of dict(zip(keys, values)) is an element of values
+    if is_S(base, "value") and base.args and isinstance(base.args[0], ast.Call) and isinstance(base.args[0].func, ast.Name) \
+            and base.args[0].func.id == "dict" and len(base.args[0].args) == 1:
+        inner = base.args[0].args[0]
+        if isinstance(inner, ast.Call) and isinstance(inner.func, ast.Name) and inner.func.id == "zip" and len(inner.args) == 2:
+            return [ast.Call(func=ast.Name(id="Σelem", ctx=ast.Load()), args=[inner.args[1]], keywords=[])]
     # a value of a dict comprehension over a literal sequence of pairs:
     #   {name: poly for name, poly in (("append", append), ("prepend", prepend)) if poly is not None}
     if is_S(base, "value") and base.args and isinstance(base.args[0], ast.DictComp):
